@@ -19,6 +19,7 @@ import (
 
 	"github.com/basecomplextech/baselibrary/async"
 	"github.com/basecomplextech/baselibrary/bin"
+	"github.com/basecomplextech/baselibrary/ref"
 	"github.com/basecomplextech/baselibrary/status"
 	spec "github.com/basecomplextech/spec"
 	"github.com/basecomplextech/spec/mpx"
@@ -216,22 +217,19 @@ func payload(kind string, k int) []byte {
 
 // layer is the receiving side under test: a plain mpx channel, or the rpc client's streaming channel on top of one.
 type layer struct {
-	open  func() (recv func(async.Context) ([]byte, status.Status), free func(), err error)
+	// open starts a channel whose receiving side is under test and returns its id on the wire
+	open  func() (recv func(async.Context) ([]byte, status.Status), free func(), id bin.Bin128, err error)
 	frame func(kind string, k int) []byte // the bytes the peer puts into the data frame
+	peer  func() *peer.Peer               // the raw peer which produces the data frames
 }
 
 func runSchedule(idx int, rec *Rec, c *ctl, ly *layer, srv *rawServer, report func(sig, detail string)) (fatal bool) {
-	recv, free, err := ly.open()
+	recv, free, id, err := ly.open()
 	if err != nil {
 		report("harness", err.Error())
 		return true
 	}
 	defer free()
-	id, err := srv.waitOpen()
-	if err != nil {
-		report("harness", err.Error())
-		return true
-	}
 	type result struct {
 		sizes []int
 		st    string
@@ -273,7 +271,7 @@ func runSchedule(idx int, rec *Rec, c *ctl, ly *layer, srv *rawServer, report fu
 	ok := true
 	for k, s := range rec.Sched {
 		if s[0] == "P" {
-			if err := srv.p.WriteFrame(peer.Data(id, ly.frame(s[1], sent))); err != nil {
+			if err := ly.peer().WriteFrame(peer.Data(id, ly.frame(s[1], sent))); err != nil {
 				report("harness", "write: "+err.Error())
 				c.free()
 				return true
@@ -366,6 +364,7 @@ func main() {
 	var srv *rawServer
 	var lg *mpxh.CapLogger
 	ly := &layer{}
+	stopServer := func() {}
 	connect := func() error {
 		ln, err := net.Listen("tcp", "127.0.0.1:0")
 		if err != nil {
@@ -375,55 +374,138 @@ func main() {
 		accErr := make(chan error, 1)
 		go func() { accErr <- srv.accept() }()
 		lg = mpxh.NewCapLogger()
+		rpcFrame := func(kind string, k int) []byte {
+			w := prpc.NewMessageWriter()
+			w.Type(prpc.MessageType_Message)
+			w.Msg(payload(kind, k))
+			m, err := w.Build()
+			if err != nil {
+				panic("harness: " + err.Error())
+			}
+			return append([]byte{}, m.Unwrap().Raw()...)
+		}
+		if *layerName == "rpcserver" {
+			// the receiving side is the rpc server's channel inside a handler; the raw peer is the client
+			ln.Close()
+			type hinfo struct {
+				ch      rpc.ServerChannel
+				release chan struct{}
+			}
+			handlers := make(chan hinfo, 4)
+			opts := rpc.Default()
+			opts.Compression = false
+			rsrv := rpc.NewServer("127.0.0.1:0", rpc.HandleFunc(func(ctx rpc.Context, ch rpc.ServerChannel) (ref.R[[]byte], status.Status) {
+				h := hinfo{ch, make(chan struct{})}
+				handlers <- h
+				<-h.release
+				return nil, status.OK
+			}), lg, opts)
+			if st := rsrv.Start(); !st.OK() {
+				return fmt.Errorf("rpc server: %v", st)
+			}
+			select {
+			case <-rsrv.Listening().Wait():
+			case <-time.After(stepTimeout):
+				return fmt.Errorf("rpc server not listening")
+			}
+			stopServer = func() { rsrv.Stop() }
+			cp, err := peer.Dial(rsrv.Address())
+			if err != nil {
+				return err
+			}
+			if f, err := cp.HandshakeClient(false); err != nil || !f.OK {
+				return fmt.Errorf("handshake: %v %+v", err, f)
+			}
+			go func() { // drain what the server sends
+				for {
+					if _, err := cp.ReadFrame(time.Hour); err != nil {
+						return
+					}
+				}
+			}()
+			srv = &rawServer{ln: ln, p: cp}
+			next := 0
+			ly.open = func() (func(async.Context) ([]byte, status.Status), func(), bin.Bin128, error) {
+				next++
+				id := peer.ID(next)
+				w := prpc.NewMessageWriter()
+				w.Type(prpc.MessageType_Request)
+				rw := w.Req()
+				calls := rw.Calls()
+				call := calls.Add()
+				call.Method("stream")
+				if err := call.End(); err != nil {
+					return nil, nil, id, err
+				}
+				if err := calls.End(); err != nil {
+					return nil, nil, id, err
+				}
+				if err := rw.End(); err != nil {
+					return nil, nil, id, err
+				}
+				m, err := w.Build()
+				if err != nil {
+					return nil, nil, id, err
+				}
+				if err := cp.WriteFrame(peer.Open(id, 1<<20, m.Unwrap().Raw())); err != nil {
+					return nil, nil, id, err
+				}
+				select {
+				case h := <-handlers:
+					return h.ch.Receive, func() { close(h.release) }, id, nil
+				case <-time.After(stepTimeout):
+					return nil, nil, id, fmt.Errorf("the rpc handler did not start")
+				}
+			}
+			ly.frame = rpcFrame
+			ly.peer = func() *peer.Peer { return cp }
+			return nil
+		}
 		if *layerName == "rpc" {
 			opts := rpc.Default()
 			opts.Compression = false
 			opts.ClientMaxConns = 1
 			rcl = rpc.NewClient(ln.Addr().String(), mpx.ClientMode_OnDemand, lg, opts)
 			first := true
-			ly.open = func() (func(async.Context) ([]byte, status.Status), func(), error) {
+			ly.open = func() (func(async.Context) ([]byte, status.Status), func(), bin.Bin128, error) {
 				r := rpc.NewRequest()
 				w := spec.NewMessageWriter()
 				w.Field(1).Int64(1)
 				b, err := w.Build()
 				if err != nil {
-					return nil, nil, err
+					return nil, nil, bin.Bin128{}, err
 				}
 				in, _, err := spec.ParseMessage(append([]byte{}, b...))
 				if err != nil {
-					return nil, nil, err
+					return nil, nil, bin.Bin128{}, err
 				}
 				if st := r.AddMessage("stream", in); !st.OK() {
-					return nil, nil, fmt.Errorf("%v", st)
+					return nil, nil, bin.Bin128{}, fmt.Errorf("%v", st)
 				}
 				req, st := r.Build()
 				if !st.OK() {
-					return nil, nil, fmt.Errorf("%v", st)
+					return nil, nil, bin.Bin128{}, fmt.Errorf("%v", st)
 				}
 				ch, st := rcl.Channel(async.TimeoutContext(stepTimeout), req)
 				if !st.OK() {
 					r.Free()
-					return nil, nil, fmt.Errorf("rpc channel: %v", st)
+					return nil, nil, bin.Bin128{}, fmt.Errorf("rpc channel: %v", st)
 				}
 				if first {
 					first = false
 					if err := <-accErr; err != nil {
-						return nil, nil, err
+						return nil, nil, bin.Bin128{}, err
 					}
 				}
-				return ch.Receive, func() { ch.Free(); r.Free() }, nil
-			}
-			// a streamed rpc message: prpc.Message{type: MESSAGE, msg: payload}
-			ly.frame = func(kind string, k int) []byte {
-				w := prpc.NewMessageWriter()
-				w.Type(prpc.MessageType_Message)
-				w.Msg(payload(kind, k))
-				m, err := w.Build()
+				id, err := srv.waitOpen()
 				if err != nil {
-					panic("harness: " + err.Error())
+					return nil, nil, id, err
 				}
-				return append([]byte{}, m.Unwrap().Raw()...)
+				return ch.Receive, func() { ch.Free(); r.Free() }, id, nil
 			}
+			ly.peer = func() *peer.Peer { return srv.p }
+			// a streamed rpc message: prpc.Message{type: MESSAGE, msg: payload}
+			ly.frame = rpcFrame
 			return nil
 		}
 		opts := mpx.Default()
@@ -436,18 +518,24 @@ func main() {
 			return err
 		}
 		conn = cn
-		ly.open = func() (func(async.Context) ([]byte, status.Status), func(), error) {
+		ly.open = func() (func(async.Context) ([]byte, status.Status), func(), bin.Bin128, error) {
 			ch, st := conn.Channel(async.NoContext())
 			if !st.OK() {
-				return nil, nil, fmt.Errorf("channel: %v", st)
+				return nil, nil, bin.Bin128{}, fmt.Errorf("channel: %v", st)
 			}
 			if st := ch.Send(async.NoContext(), []byte("open")); !st.OK() {
 				ch.Free()
-				return nil, nil, fmt.Errorf("send: %v", st)
+				return nil, nil, bin.Bin128{}, fmt.Errorf("send: %v", st)
 			}
-			return ch.Receive, ch.Free, nil
+			id, err := srv.waitOpen()
+			if err != nil {
+				ch.Free()
+				return nil, nil, id, err
+			}
+			return ch.Receive, ch.Free, id, nil
 		}
 		ly.frame = payload
+		ly.peer = func() *peer.Peer { return srv.p }
 		return nil
 	}
 	if err := connect(); err != nil {
@@ -481,8 +569,9 @@ func main() {
 		}
 		if fatal {
 			// a stuck receiver still holds the channel: continue on a fresh connection
-			old, oldCl, oldSrv := conn, rcl, srv
+			old, oldCl, oldSrv, oldStop := conn, rcl, srv, stopServer
 			go func() {
+				oldStop()
 				if old != nil {
 					old.Close()
 				}
